@@ -25,6 +25,16 @@ def handle (j : Json) : Option Json := do
       let los ← getEValList j "lo"
       let his ← getEValList j "hi"
       pure (Json.arr #[(intersectLo los).toJson, (intersectHi his).toJson])
+  | "mobox" =>
+      -- ModelicaMixin.bounds()[v]: declared type, optional user pair, min / max attributes
+      let isBool ← getBool j "bool"
+      let mn ← getEVal j "min"
+      let mx ← getEVal j "max"
+      let user := match getEVal j "ulo", getEVal j "uhi" with
+        | some a, some b => some (a, b)
+        | _, _ => none
+      let r := modelicaBox isBool user mn mx
+      pure (Json.arr #[r.1.toJson, r.2.toJson])
   | "interp" =>
       -- extended interpolation on its own (values may be ±inf / NaN)
       let mode ← getNat j "mode"
